@@ -360,7 +360,8 @@ Definition covered : list (string * string * string * string * cover) := [
   ("pkg/expressions/stdlib/funcsTime.go", "kfDurationFormat", "index", "args[0]", Inspect "index below a length / arity test made just before (len(args) pattern of the model)");
   ("pkg/expressions/stdlib/funcsTime.go", "kfBucketTime", "index", "args[1]", Inspect "index below a length / arity test made just before (len(args) pattern of the model)");
   ("pkg/expressions/stdlib/funcsTime.go", "kfBucketTime", "index", "args[0]", Inspect "index below a length / arity test made just before (len(args) pattern of the model)");
-  ("pkg/expressions/stdlib/funcsTime.go", "var attrType", "quo", "month / 3", Inert "constant non-zero divisor");
+  ("pkg/expressions/stdlib/funcsTime.go", "var attrType", "quo", "(month - 1) / 3", Inert "constant non-zero divisor");
+  ("pkg/expressions/stdlib/funcsTime.go", "kfDuration", "quo", "duration / time.Second", Inert "constant non-zero divisor");
   ("pkg/expressions/stdlib/funcsTime.go", "kfTimeAttr", "index", "args[1]", Inspect "index below a length / arity test made just before (len(args) pattern of the model)");
   ("pkg/expressions/stdlib/funcsTime.go", "kfTimeAttr", "index", "attrType[strings.ToUpper(attrName)]", Inert "map access (a missing key reads the zero value; the map is made before it is written)");
   ("pkg/expressions/stdlib/funcsTime.go", "kfTimeAttr", "index", "args[0]", Inspect "index below a length / arity test made just before (len(args) pattern of the model)");
